@@ -204,6 +204,7 @@ func (loopQSpec) ExecCommandQF(_ *clientpb.Command, replies map[uint32]*emptypb.
 type rpcCase struct {
 	Waiting [][2]int // commands submitted by clients over the network (distinct)
 	Ops     []ioOp   // then exec / abort batches applied by the replica
+	Late    [][2]int // requests that arrive only after those batches (late clients, retransmissions)
 }
 
 func rpcProp(c rpcCase) common.Result {
@@ -299,6 +300,21 @@ func rpcProp(c rpcCase) common.Result {
 			return common.Fail("rpc:replica-blocked", "step %d (%s): the replica did not return from handling the batch within 15 s (a second outcome sent to a client that is no longer waiting blocks it forever)", step, op.K)
 		}
 	}
+	// late or retransmitted requests: commands that reach the replica only now, after other commands of the same client
+	// (possibly with higher sequence numbers) were executed. Success may be reported only for a command the replica executed.
+	lateSuccess := 0
+	for _, p := range c.Late {
+		cmd := mkCmd(p)
+		lctx, lcancel := context.WithTimeout(context.Background(), 250*time.Millisecond)
+		_, err := cfg.ExecCommand(lctx, cmd).Get()
+		lcancel()
+		if err == nil {
+			lateSuccess++
+			if !applied[cmd.ID()] {
+				return common.Fail("rpc:success-without-execution", "the client of (client %d, seq %d), whose request arrived after the batches were handled, received SUCCESS although the replica never executed that command", cmd.ClientID, cmd.SequenceNumber)
+			}
+		}
+	}
 	successes, failures := 0, 0
 	for _, cl := range calls {
 		if !touched[cl.id] {
@@ -337,6 +353,9 @@ func TestC06ExecCommandRPC(t *testing.T) {
 				op.Cmds = append(op.Cmds, pair())
 			}
 			c.Ops = append(c.Ops, op)
+		}
+		for i := rapid.IntRange(0, 3).Draw(rt, "late"); i > 0; i-- {
+			c.Late = append(c.Late, pair())
 		}
 		return c
 	}, rpcProp)
